@@ -1,0 +1,302 @@
+//go:build verif
+// +build verif
+
+package edwards25519
+
+import "github.com/dedis/kyber"
+
+// Verification hooks (build tag verif): thin exports of the unexported ref10 field
+// routines of fe.go and group routines of ge.go. No logic beyond copying limbs in and out.
+//
+// A *[10]int32 is converted to a *fieldElement (same memory), so passing the same
+// pointer for several parameters exercises the real aliasing behaviour of the routine.
+// Group structs are arrays of limb vectors in field order (X,Y,Z[,T] / yPlusX,yMinusX,xy2d /
+// yPlusX,yMinusX,Z,T2d) and are copied into a struct of the real type and back.
+
+// VerifGe is a four-coordinate group element (extended, completed or cached).
+type VerifGe [4][10]int32
+
+// VerifGe3 is a three-coordinate group element (projective or precomputed).
+type VerifGe3 [3][10]int32
+
+// ---------- fe.go ----------
+
+func VerifFeZero(fe *[10]int32) { feZero((*fieldElement)(fe)) }
+func VerifFeOne(fe *[10]int32)  { feOne((*fieldElement)(fe)) }
+func VerifFeAdd(dst, a, b *[10]int32) {
+	feAdd((*fieldElement)(dst), (*fieldElement)(a), (*fieldElement)(b))
+}
+func VerifFeSub(dst, a, b *[10]int32) {
+	feSub((*fieldElement)(dst), (*fieldElement)(a), (*fieldElement)(b))
+}
+func VerifFeCopy(dst, src *[10]int32)       { feCopy((*fieldElement)(dst), (*fieldElement)(src)) }
+func VerifFeCMove(f, g *[10]int32, b int32) { feCMove((*fieldElement)(f), (*fieldElement)(g), b) }
+func VerifFeFromBytes(dst *[10]int32, src []byte) {
+	feFromBytes((*fieldElement)(dst), src)
+}
+
+// VerifFeToBytes is feToBytes; h is normalised in place by the real routine.
+func VerifFeToBytes(s *[32]byte, h *[10]int32) { feToBytes(s, (*fieldElement)(h)) }
+
+// VerifFeIsNegative is feIsNegative; f is normalised in place by the real routine.
+func VerifFeIsNegative(f *[10]int32) byte { return feIsNegative((*fieldElement)(f)) }
+
+// VerifFeIsNonZero is feIsNonZero; f is normalised in place by the real routine.
+func VerifFeIsNonZero(f *[10]int32) int32 { return feIsNonZero((*fieldElement)(f)) }
+func VerifFeNeg(h, f *[10]int32)          { feNeg((*fieldElement)(h), (*fieldElement)(f)) }
+func VerifFeMul(h, f, g *[10]int32) {
+	feMul((*fieldElement)(h), (*fieldElement)(f), (*fieldElement)(g))
+}
+func VerifFeSquare(h, f *[10]int32)     { feSquare((*fieldElement)(h), (*fieldElement)(f)) }
+func VerifFeSquare2(h, f *[10]int32)    { feSquare2((*fieldElement)(h), (*fieldElement)(f)) }
+func VerifFeInvert(out, z *[10]int32)   { feInvert((*fieldElement)(out), (*fieldElement)(z)) }
+func VerifFePow22523(out, z *[10]int32) { fePow22523((*fieldElement)(out), (*fieldElement)(z)) }
+
+// ---------- copying limbs in and out ----------
+
+func verifProjIn(v *VerifGe3) projectiveGroupElement {
+	return projectiveGroupElement{X: v[0], Y: v[1], Z: v[2]}
+}
+func verifProjOut(v *VerifGe3, p *projectiveGroupElement) { v[0], v[1], v[2] = p.X, p.Y, p.Z }
+func verifExtIn(v *VerifGe) extendedGroupElement {
+	return extendedGroupElement{X: v[0], Y: v[1], Z: v[2], T: v[3]}
+}
+func verifExtOut(v *VerifGe, p *extendedGroupElement) { v[0], v[1], v[2], v[3] = p.X, p.Y, p.Z, p.T }
+func verifComplIn(v *VerifGe) completedGroupElement {
+	return completedGroupElement{X: v[0], Y: v[1], Z: v[2], T: v[3]}
+}
+func verifComplOut(v *VerifGe, p *completedGroupElement) { v[0], v[1], v[2], v[3] = p.X, p.Y, p.Z, p.T }
+func verifPreIn(v *VerifGe3) preComputedGroupElement {
+	return preComputedGroupElement{yPlusX: v[0], yMinusX: v[1], xy2d: v[2]}
+}
+func verifPreOut(v *VerifGe3, p *preComputedGroupElement) {
+	v[0], v[1], v[2] = p.yPlusX, p.yMinusX, p.xy2d
+}
+func verifCachedIn(v *VerifGe) cachedGroupElement {
+	return cachedGroupElement{yPlusX: v[0], yMinusX: v[1], Z: v[2], T2d: v[3]}
+}
+func verifCachedOut(v *VerifGe, p *cachedGroupElement) {
+	v[0], v[1], v[2], v[3] = p.yPlusX, p.yMinusX, p.Z, p.T2d
+}
+
+// ---------- ge.go ----------
+
+// VerifGeProjZero is projective.Zero on an object holding v.
+func VerifGeProjZero(v *VerifGe3) { p := verifProjIn(v); p.Zero(); verifProjOut(v, &p) }
+
+// VerifGeExtZero is extended.Zero on an object holding v.
+func VerifGeExtZero(v *VerifGe) { p := verifExtIn(v); p.Zero(); verifExtOut(v, &p) }
+
+// VerifGePreZero is preComputed.Zero on an object holding v.
+func VerifGePreZero(v *VerifGe3) { p := verifPreIn(v); p.Zero(); verifPreOut(v, &p) }
+
+// VerifGeCachedZero is cached.Zero on an object holding v.
+func VerifGeCachedZero(v *VerifGe) { p := verifCachedIn(v); p.Zero(); verifCachedOut(v, &p) }
+
+// VerifGeDouble is projective.Double: r (completed) = 2p; r holds its previous contents on entry.
+func VerifGeDouble(r *VerifGe, p *VerifGe3) {
+	pp, rr := verifProjIn(p), verifComplIn(r)
+	pp.Double(&rr)
+	verifComplOut(r, &rr)
+	verifProjOut(p, &pp)
+}
+
+// VerifGeExtDouble is extended.Double: r (completed) = 2p.
+func VerifGeExtDouble(r *VerifGe, p *VerifGe) {
+	pp, rr := verifExtIn(p), verifComplIn(r)
+	pp.Double(&rr)
+	verifComplOut(r, &rr)
+	verifExtOut(p, &pp)
+}
+
+// VerifGeNeg is extended.Neg with distinct objects: p = -s.
+func VerifGeNeg(p, s *VerifGe) {
+	pp, ss := verifExtIn(p), verifExtIn(s)
+	pp.Neg(&ss)
+	verifExtOut(p, &pp)
+	verifExtOut(s, &ss)
+}
+
+// VerifGeNegInPlace is p.Neg(p): receiver and argument are the same object.
+func VerifGeNegInPlace(p *VerifGe) { pp := verifExtIn(p); pp.Neg(&pp); verifExtOut(p, &pp) }
+
+// VerifGeToCached is extended.ToCached.
+func VerifGeToCached(r *VerifGe, p *VerifGe) {
+	pp, rr := verifExtIn(p), verifCachedIn(r)
+	pp.ToCached(&rr)
+	verifCachedOut(r, &rr)
+	verifExtOut(p, &pp)
+}
+
+// VerifGeExtToProjective is extended.ToProjective.
+func VerifGeExtToProjective(r *VerifGe3, p *VerifGe) {
+	pp, rr := verifExtIn(p), verifProjIn(r)
+	pp.ToProjective(&rr)
+	verifProjOut(r, &rr)
+	verifExtOut(p, &pp)
+}
+
+// VerifGeToProjective is completed.ToProjective.
+func VerifGeToProjective(r *VerifGe3, c *VerifGe) {
+	cc, rr := verifComplIn(c), verifProjIn(r)
+	cc.ToProjective(&rr)
+	verifProjOut(r, &rr)
+	verifComplOut(c, &cc)
+}
+
+// VerifGeToExtended is completed.ToExtended.
+func VerifGeToExtended(r *VerifGe, c *VerifGe) {
+	cc, rr := verifComplIn(c), verifExtIn(r)
+	cc.ToExtended(&rr)
+	verifExtOut(r, &rr)
+	verifComplOut(c, &cc)
+}
+
+// VerifGeAdd is completed.Add: c = p + q (p extended, q cached).
+func VerifGeAdd(c, p, q *VerifGe) {
+	cc, pp, qq := verifComplIn(c), verifExtIn(p), verifCachedIn(q)
+	cc.Add(&pp, &qq)
+	verifComplOut(c, &cc)
+	verifExtOut(p, &pp)
+	verifCachedOut(q, &qq)
+}
+
+// VerifGeSub is completed.Sub: c = p - q (p extended, q cached).
+func VerifGeSub(c, p, q *VerifGe) {
+	cc, pp, qq := verifComplIn(c), verifExtIn(p), verifCachedIn(q)
+	cc.Sub(&pp, &qq)
+	verifComplOut(c, &cc)
+	verifExtOut(p, &pp)
+	verifCachedOut(q, &qq)
+}
+
+// VerifGeMixedAdd is completed.MixedAdd: c = p + q (p extended, q precomputed).
+func VerifGeMixedAdd(c, p *VerifGe, q *VerifGe3) {
+	cc, pp, qq := verifComplIn(c), verifExtIn(p), verifPreIn(q)
+	cc.MixedAdd(&pp, &qq)
+	verifComplOut(c, &cc)
+	verifExtOut(p, &pp)
+	verifPreOut(q, &qq)
+}
+
+// VerifGeMixedSub is completed.MixedSub: c = p - q (p extended, q precomputed).
+func VerifGeMixedSub(c, p *VerifGe, q *VerifGe3) {
+	cc, pp, qq := verifComplIn(c), verifExtIn(p), verifPreIn(q)
+	cc.MixedSub(&pp, &qq)
+	verifComplOut(c, &cc)
+	verifExtOut(p, &pp)
+	verifPreOut(q, &qq)
+}
+
+// VerifGePreCMove is preComputed.CMove.
+func VerifGePreCMove(p, u *VerifGe3, b int32) {
+	pp, uu := verifPreIn(p), verifPreIn(u)
+	pp.CMove(&uu, b)
+	verifPreOut(p, &pp)
+	verifPreOut(u, &uu)
+}
+
+// VerifGePreNeg is preComputed.Neg: p = -t.
+func VerifGePreNeg(p, t *VerifGe3) {
+	pp, tt := verifPreIn(p), verifPreIn(t)
+	pp.Neg(&tt)
+	verifPreOut(p, &pp)
+	verifPreOut(t, &tt)
+}
+
+// VerifGeCachedCMove is cached.CMove.
+func VerifGeCachedCMove(r, u *VerifGe, b int32) {
+	rr, uu := verifCachedIn(r), verifCachedIn(u)
+	rr.CMove(&uu, b)
+	verifCachedOut(r, &rr)
+	verifCachedOut(u, &uu)
+}
+
+// VerifGeCachedNeg is cached.Neg: r = -t.
+func VerifGeCachedNeg(r, t *VerifGe) {
+	rr, tt := verifCachedIn(r), verifCachedIn(t)
+	rr.Neg(&tt)
+	verifCachedOut(r, &rr)
+	verifCachedOut(t, &tt)
+}
+
+// VerifGeProjToBytes is projective.ToBytes.
+func VerifGeProjToBytes(s *[32]byte, p *VerifGe3) {
+	pp := verifProjIn(p)
+	pp.ToBytes(s)
+	verifProjOut(p, &pp)
+}
+
+// VerifGeToBytes is extended.ToBytes.
+func VerifGeToBytes(s *[32]byte, p *VerifGe) {
+	pp := verifExtIn(p)
+	pp.ToBytes(s)
+	verifExtOut(p, &pp)
+}
+
+// VerifGeFromBytes is extended.FromBytes on an object holding p.
+func VerifGeFromBytes(p *VerifGe, s []byte) bool {
+	pp := verifExtIn(p)
+	ok := pp.FromBytes(s)
+	verifExtOut(p, &pp)
+	return ok
+}
+
+// VerifEqual is equal.
+func VerifEqual(b, c int32) int32 { return equal(b, c) }
+
+// VerifNegative is negative.
+func VerifNegative(b int32) int32 { return negative(b) }
+
+// VerifSelectPreComputed is selectPreComputed on an object holding t.
+func VerifSelectPreComputed(t *VerifGe3, pos, b int32) {
+	tt := verifPreIn(t)
+	selectPreComputed(&tt, pos, b)
+	verifPreOut(t, &tt)
+}
+
+// VerifSelectCached is selectCached on an object holding c.
+func VerifSelectCached(c *VerifGe, ai *[8]VerifGe, b int32) {
+	cc := verifCachedIn(c)
+	var a [8]cachedGroupElement
+	for i := range a {
+		a[i] = verifCachedIn(&ai[i])
+	}
+	selectCached(&cc, &a, b)
+	verifCachedOut(c, &cc)
+}
+
+// VerifGeScalarMult is geScalarMult: h = a*A.
+func VerifGeScalarMult(h *VerifGe, a *[32]byte, A *VerifGe) {
+	hh, aa := verifExtIn(h), verifExtIn(A)
+	geScalarMult(&hh, a, &aa)
+	verifExtOut(h, &hh)
+	verifExtOut(A, &aa)
+}
+
+// VerifGeScalarMultInPlace is geScalarMult(p, a, p): output and point are the same object.
+func VerifGeScalarMultInPlace(p *VerifGe, a *[32]byte) {
+	pp := verifExtIn(p)
+	geScalarMult(&pp, a, &pp)
+	verifExtOut(p, &pp)
+}
+
+// VerifGeScalarMultBase is geScalarMultBase: h = a*B.
+func VerifGeScalarMultBase(h *VerifGe, a *[32]byte) {
+	hh := verifExtIn(h)
+	geScalarMultBase(&hh, a)
+	verifExtOut(h, &hh)
+}
+
+// VerifBaseExt returns the limbs of the constant baseext.
+func VerifBaseExt() (v VerifGe) {
+	b := baseext
+	verifExtOut(&v, &b)
+	return
+}
+
+// VerifPointLimbs returns the limbs of the extended group element inside a point of this suite.
+func VerifPointLimbs(P kyber.Point) (v VerifGe) {
+	verifExtOut(&v, &P.(*point).ge)
+	return
+}
